@@ -261,11 +261,11 @@ func (f *fuzzer) structured(d decoder, seed []byte, rng *rand.Rand, thorough boo
 	case "pb":
 		big = [][]byte{{0xff, 0xff, 0xff, 0xff, 0x0f}, {0xff, 0xff, 0xff, 0xff, 0xff, 0xff, 0xff, 0xff, 0xff, 0x01}, {0x0a, 0xff, 0xff, 0x03}}
 	case "msgpack", "snapshot":
-		// Announced lengths stay <= 2^24: ugorji/codec allocates what an array32 header announces when it
-		// stands where bytes are expected (observed: 4 GiB and 2-6 s per 68-byte input with 0xffffffff),
-		// which does not crash but would starve the shared machine.
-		big = [][]byte{{0xdb, 0x00, 0xff, 0xff, 0xff}, {0xdd, 0x00, 0x0f, 0xff, 0xff}, {0xdf, 0x00, 0xff, 0xff, 0xff}, {0xc6, 0x00, 0xff, 0xff, 0xff},
-			{0xc9, 0x00, 0xff, 0xff, 0xff, 0x01}, {0xd7, 0xff}, {0xdc, 0xff, 0xff}}
+		// Announced lengths stay <= 2^20 bytes / 2^16 elements: ugorji/codec allocates what a header announces
+		// (observed: 4 GiB and 2-6 s per 68-byte input for an array32 header of 0xffffffff standing where bytes
+		// are expected; a map32 header pre-sizes a Go map). That does not crash but would starve the shared machine.
+		big = [][]byte{{0xdb, 0x00, 0x0f, 0xff, 0xff}, {0xdd, 0x00, 0x00, 0xff, 0xff}, {0xdf, 0x00, 0x00, 0xff, 0xff}, {0xc6, 0x00, 0x0f, 0xff, 0xff},
+			{0xc9, 0x00, 0x0f, 0xff, 0xff, 0x01}, {0xd7, 0xff}, {0xdc, 0xff, 0xff}}
 	case "json":
 		big = [][]byte{[]byte(`1e999999`), []byte(`"\u0000"`), []byte("\xff\xfe"), []byte(`{"a":`), []byte(`]`)}
 	case "query":
@@ -568,7 +568,7 @@ func TestDecoderTotality(t *testing.T) {
 		perOutcome[r.Outcome] += r.N
 		perClass[r.Class] += r.N
 	}
-	res.Count(f.total)
+	// not added to "evaluations": those count the enumerated round-trip cases; this part is sampling
 	res.Set("decoder_inputs_sampled", f.total)
 	res.Set("decoder_inputs_by_outcome", perOutcome)
 	res.Set("decoder_inputs_by_class", perClass)
